@@ -490,7 +490,7 @@ def run_bounded(rep: Report, tier: str) -> None:
         rep.crash("C03 independent evaluator disagrees with hand-computed examples: " + "; ".join(errs))
         return
     rng = random.Random(f"{seed()}|C03|plans")
-    _DEADLINE = deadline(tier, 150, 25 * 60)  # safety net only: the quick workload is sized for ~20 s on 16 idle cores
+    _DEADLINE = deadline(tier, 300, 25 * 60)  # safety net only: the quick workload is sized for ~20 s on 16 idle cores
     rep.rule = (
         "case = (network with >= 2 tensors, distinct prime dimensions, binary tree, set of <= 3 removed indices each sliced "
         "or projected (applied in a seeded order), tracked-from-construction flag); one evaluation = all cost comparisons of "
